@@ -277,7 +277,34 @@ func (m *Machine) unop(instr *ssa.UnOp, x Value) Value {
 		if sp, ok := x.(*SymPtr); ok {
 			return m.symLoad(sp)
 		}
-		return load(m.derefPtr(x))
+		v := load(m.derefPtr(x))
+		// *(*string)(unsafe.Pointer(&byteSlice)): the cell holds a byte slice, the static type
+		// is string - reinterpret (the string shares no storage in this model; such strings are
+		// built once and not mutated afterwards in the code met so far)
+		if bs, ok := v.([]Value); ok {
+			if b, ok := instr.Type().Underlying().(*types.Basic); ok && b.Info()&types.IsString != 0 {
+				allConc := true
+				raw := make([]byte, len(bs))
+				ts := make([]*Term, len(bs))
+				for i, e := range bs {
+					t, ok := e.(*Term)
+					if !ok {
+						m.unsupported("string reinterpretation of a non-byte slice")
+					}
+					ts[i] = t
+					if t.IsConst() {
+						raw[i] = byte(t.Val)
+					} else {
+						allConc = false
+					}
+				}
+				if allConc {
+					return Str{S: string(raw)}
+				}
+				return Str{B: ts}
+			}
+		}
+		return v
 	case token.SUB:
 		switch x := x.(type) {
 		case *Term:
